@@ -241,6 +241,35 @@ class Scheduler:
             self.store_cls.active_in_thread = None
 
 
+    def run_main_first(self, calls, close):
+        """The repository's own scenario: the calling (main) thread creates stores first, untraced and to the end;
+        then one worker thread tries.  Thread 0 of the case is the calling thread."""
+        self.store_cls.active_in_thread = None
+        me = threading.current_thread()
+        results = [[]]
+        try:
+            for _ in range(calls[0]):
+                try:
+                    ts = self.store_cls.create()
+                    results[0].append('ok')
+                    if close[0]:
+                        ts.close()
+                except RuntimeError as e:
+                    results[0].append('refused' if 'different threads' in str(e) else f'error:{e}')
+            w = Worker(self, 1, calls[1], close[1])
+            w.sch = _NoTrace(self)
+            w.go.set()
+            w.start()
+            w.join(timeout=STEP_TIMEOUT)
+            results.append(w.results)
+            o = self.store_cls.active_in_thread
+            owner = None if o is None else 0 if (o is me or o == threading.get_ident()) else \
+                1 if (o is w or o == w.my_ident) else 'other'
+            return {'results': results, 'idents_distinct': True, 'owner': owner}
+        finally:
+            self.store_cls.active_in_thread = None
+
+
 class _NoTrace:
     def __init__(self, sch):
         self.store_cls = sch.store_cls
@@ -369,19 +398,19 @@ def gen_cases(chk: Check, guard):
                 sched = [t for t in order for _ in range((per_call + 1) * calls[t])]
                 cases.append({'kind': 'interleave', 'calls': calls, 'close': close, 'sched': sched})
     # E2: more calls per thread, random words
-    for _ in range(chk.n(150, 3000)):
+    for _ in range(chk.n(150, 1500)):
         calls = rng.choice([[2, 1], [1, 2], [2, 2], [3, 1]])
         L = rng.randint(0, (per_call + 1) * sum(calls))
         cases.append({'kind': 'interleave', 'calls': calls, 'close': [rng.random() < 0.5 for _ in calls],
                       'sched': [rng.randrange(2) for _ in range(L)]})
     # E3: three threads
-    for _ in range(chk.n(120, 3000)):
+    for _ in range(chk.n(120, 1500)):
         calls = rng.choice([[1, 1, 1], [1, 1, 1], [2, 1, 1], [1, 0, 2]])
         L = rng.randint(0, (per_call + 1) * sum(calls))
         cases.append({'kind': 'interleave', 'calls': calls, 'close': [rng.random() < 0.5 for _ in calls],
                       'sched': [rng.randrange(3) for _ in range(L)]})
     if chk.tier == 'thorough':
-        for w in words(2, 12 if per_call <= 3 else 13):
+        for w in words(2, 12):
             cases.append({'kind': 'interleave', 'calls': [2, 1], 'close': [True, True], 'sched': w,
                           'exhaustive': True})
     # S: one thread after the other, each exiting before the next starts
@@ -389,6 +418,11 @@ def gen_cases(chk: Check, guard):
         for close in (True, False):
             cases.append({'kind': 'sequential_exit', 'calls': calls, 'close': [close] * len(calls),
                           'sched': [t for t in range(len(calls)) for _ in range(6 * calls[t])]})
+    # M: the calling thread first (as in tests/test_storage.py::test_multi_threading), then a worker thread
+    for calls in ([1, 1], [2, 2], [0, 2]):
+        for close in (True, False):
+            cases.append({'kind': 'main_first', 'calls': calls, 'close': [close, close],
+                          'sched': [t for t in range(2) for _ in range(6 * calls[t])]})
     return cases
 
 
@@ -408,6 +442,8 @@ def check_cases(chk: Check, cases, guard):
         try:
             if c['kind'] == 'interleave':
                 outs.append(sch.run_interleaved(c['calls'], c['close'], c['sched']))
+            elif c['kind'] == 'main_first':
+                outs.append(sch.run_main_first(c['calls'], c['close']))
             else:
                 outs.append(sch.run_sequential_exit(c['calls'], c['close']))
         except SchedulerStuck as e:
@@ -421,7 +457,7 @@ def check_cases(chk: Check, cases, guard):
             continue
         distinct_threads_step = len({t for t in c['sched'][:4]}) > 1
         chk.case({k: c[k] for k in ('kind', 'calls', 'close', 'sched')},
-                 nontrivial=(c['kind'] == 'interleave' and distinct_threads_step) or c['kind'] == 'sequential_exit')
+                 nontrivial=(c['kind'] == 'interleave' and distinct_threads_step) or c['kind'] != 'interleave')
         chk.count('kind:' + c['kind'] + (':exhaustive' if c.get('exhaustive') else ''))
         chk.count(f'threads:{len(c["calls"])}')
         for lb in out.get('labels', []):
